@@ -32,6 +32,15 @@ def make_labels(rng, style, n_in, n_g):
         used.add(l)
         return l
 
+    if style == 'odd':
+        # any str is a label for the in-memory API: falsy / blank / look-alike / punctuation / non-ASCII ones included
+        pool = ['', ' ', '0', '1', 'None', 'False', 'True', '\t', 'a b', '#', '=', '(', ')', ',', '-1', 'é', '\ufeff', 'x0', 'g0',
+                '0.0', '\n']
+        rng.shuffle(pool)
+        for i in range(n_in + n_g):
+            l = fresh(pool[i]) if i < len(pool) and rng.random() < 0.6 else fresh(('x%d' if i < n_in else 'g%d') % i)
+            (ins if i < n_in else gs).append(l)
+        return ins, gs
     for i in range(n_in):
         if style == 'derived':
             ins.append(fresh('p%d' % i))
